@@ -228,6 +228,18 @@ def promoted_aggs(F, text):
     return out
 
 
+def promoted_consts(F, text):
+    """plain constants (e.g. a string literal) assigned inside a promoted body"""
+    out = []
+    if '::promoted[' in text and text in F.bodies_raw:
+        pb = F.body(text)
+        for i in range(pb.n):
+            for s in pb.stmts(i):
+                if s[0] == 'a' and s[2][0] == 'use' and s[2][1][0] == 'k':
+                    out.append(s[2][1][2])
+    return out
+
+
 def op_place(op):
     if op and op[0] in ('c', 'm'):
         return op[1]
@@ -427,7 +439,12 @@ class Body:
             for (path, variant, _ops) in pa:
                 out.add(('agg', 'adt', path, variant))
         else:
-            out.add(('const', op[2]))
+            pcs = promoted_consts(self.F, op[2])
+            if pcs:
+                for t in pcs:
+                    out.add(('const', t))
+            else:
+                out.add(('const', op[2]))
 
     PASS = ('clone', 'deref', 'deref_mut', 'borrow', 'borrow_mut', 'as_ref', 'as_mut', 'into',
             'from', 'to_owned', 'as_slice', 'as_mut_slice', 'unwrap', 'expect', 'branch',
@@ -1134,7 +1151,12 @@ def _const_origin(body, op, out):
         for (path, variant, _ops) in pa:
             out.add(('agg', path, variant))
     else:
-        out.add(('const', op[2]))
+        pcs = promoted_consts(body.F, op[2])
+        if pcs:
+            for t in pcs:
+                out.add(('const', t))
+        else:
+            out.add(('const', op[2]))
 
 
 def _origins_place(body, place, passthru, seen, out, depth, pend=None):
